@@ -39,9 +39,9 @@ const (
 	mSeq = mV | mL
 )
 
-func same(ak []int) int   { return ak[0] }
-func toL(ak []int) int    { return kL }
-func toV(ak []int) int    { return kV }
+func same(ak []int) int { return ak[0] }
+func toL(ak []int) int  { return kL }
+func toV(ak []int) int  { return kV }
 func c02ops() []c02op {
 	f := fmt.Sprintf
 	return []c02op{
@@ -139,13 +139,13 @@ type c02hist struct {
 }
 
 var c02seedText = []string{
-	"(def v0 [1 2 3])",                 // literal: len 3, spare capacity through eval_ast's append
-	"(def l1 (list 1 2 3))",            // list builtin
-	"(def l2 (quote (1 2 3)))",         // the reader's own array
-	"(def m3 {:a 1})",                  // map
-	`(def s4 #{"a"})`,                  // set
-	"(def v5 (subvec [1 2 3 4] 0 2))",  // window over a larger array
-	"(def pk _PACKAGES_)",              // registry map (mutated by registration)
+	"(def v0 [1 2 3])",                // literal: len 3, spare capacity through eval_ast's append
+	"(def l1 (list 1 2 3))",           // list builtin
+	"(def l2 (quote (1 2 3)))",        // the reader's own array
+	"(def m3 {:a 1})",                 // map
+	`(def s4 #{"a"})`,                 // set
+	"(def v5 (subvec [1 2 3 4] 0 2))", // window over a larger array
+	"(def pk _PACKAGES_)",             // registry map (mutated by registration)
 }
 var c02seedNames = []string{"v0", "l1", "l2", "m3", "s4", "v5", "pk"}
 var c02seedKinds = []int{kV, kL, kL, kM, kS, kV, kP}
@@ -374,10 +374,10 @@ func init() {
 			return strings.Join(parts, " ; ")
 		}
 		fam := &vf.Family{
-			Name:   "histories",
-			Bounds: fmt.Sprintf("all histories of exactly 2 (quick) / 3 (thorough) type-correct operations over %d operation kinds applied to any earlier value (7 seeds incl. literal vector with spare capacity, reader array, subvec window, _PACKAGES_); a case = one prefix, expanded by every possible last operation", len(ops)),
-			Setup:  setup,
-			N:      func(t string) int64 { tier = t; return int64(len(pfx())) },
+			Name:     "histories",
+			Bounds:   fmt.Sprintf("all histories of exactly 2 (quick) / 3 (thorough) type-correct operations over %d operation kinds applied to any earlier value (7 seeds incl. literal vector with spare capacity, reader array, subvec window, _PACKAGES_); a case = one prefix, expanded by every possible last operation", len(ops)),
+			Setup:    setup,
+			N:        func(t string) int64 { tier = t; return int64(len(pfx())) },
 			Describe: func(i int64) string { return descr(pfx()[i]) + " ; <every next operation>" },
 			Run: func(i int64, r *vf.Rec) {
 				h := pfx()[i]
@@ -409,9 +409,9 @@ func init() {
 		}
 		return &vf.Check{
 			ID: "C02", Level: "model_checking",
-			Rule: "explicit enumeration of all operation histories up to the depth bound on the real builtins (each history replayed on a fresh scope); after every step every earlier binding is re-read through env.Get and its canonical form must equal the form recorded when it was bound; non-trivial = every case (each expands to all last steps)",
+			Rule:        "explicit enumeration of all operation histories up to the depth bound on the real builtins (each history replayed on a fresh scope); after every step every earlier binding is re-read through env.Get and its canonical form must equal the form recorded when it was bound; non-trivial = every case (each expands to all last steps)",
 			Assumptions: []string{"operations outside the listed kinds and histories deeper than the bound", "values are compared by canonical printed structure (list/vector distinguished, map/set order removed)"},
-			Families: []*vf.Family{fam},
+			Families:    []*vf.Family{fam},
 		}
 	})
 }
